@@ -234,6 +234,43 @@ impl Case {
         c
     }
 
+    /// `w<k>` / `c<k>` (`k` a count or `all`): that many of the +0.0 `f64` weights / coordinates
+    /// become -0.0 (fewer if there are fewer). → (twin, number flipped)
+    fn with_negzeros(&self, spec: &str) -> Option<(Case, usize)> {
+        let (on_w, k) = (spec.starts_with('w'), &spec[1.min(spec.len())..]);
+        if !(spec.starts_with('w') || spec.starts_with('c')) {
+            return None;
+        }
+        let k: usize = if k == "all" { usize::MAX } else { k.parse().ok()? };
+        let mut c = self.clone();
+        let mut done = 0usize;
+        let mut flip = |v: &mut Vec<f64>| {
+            for x in v.iter_mut() {
+                if done < k && x.to_bits() == 0 {
+                    *x = -0.0;
+                    done += 1;
+                }
+            }
+        };
+        if on_w {
+            match &mut c {
+                Case::Bisect { w: Wts::F(w), .. } | Case::Greedy { w: Wts::F(w), .. } | Case::Grid { w: Wts::F(w), .. } => {
+                    flip(w)
+                }
+                Case::Hilbert { w, .. } | Case::Mj { w, .. } => flip(w),
+                _ => return None,
+            }
+        } else {
+            match &mut c {
+                Case::Bisect { pts, .. } | Case::Hilbert { pts, .. } | Case::ZCurve { pts, .. } | Case::Mj { pts, .. } => {
+                    flip(pts)
+                }
+                _ => return None,
+            }
+        }
+        Some((c, done))
+    }
+
     /// Sum of the `f64` weights (`None`: the case has no `f64` weights).
     fn f_total(&self) -> Option<f64> {
         match self {
@@ -606,6 +643,8 @@ enum Ret {
     LenMismatch,
     InvalidOrder,
     Other(String),
+    /// `<kind>|<what>`: a comparison made inside the run failed (signature `<kind>@<algo>`)
+    Mismatch(String),
 }
 
 fn map_err(e: coupe::Error) -> Ret {
@@ -880,12 +919,381 @@ fn verdict(
                     )
                 }
             }
+            Ret::Mismatch(e) => {
+                let mut it = e.splitn(2, '|');
+                let kind = it.next().unwrap_or("mismatch");
+                let what = it.next().unwrap_or("");
+                (kind.to_string(), Some((format!("{}@{}", kind, algo), format!("{} (T={})", what, t))))
+            }
             Ret::Other(e) => (
                 format!("err {}", e),
                 ooc.is_none().then(|| (format!("unexpected-error@{}", algo), format!("{} (T={})", e, t))),
             ),
         },
     }
+}
+
+// ------------------------------------------------------------------ special variants (types, contexts, tools)
+
+use coupe::nalgebra::allocator::Allocator;
+use coupe::nalgebra::{ArrayStorage, Const, DefaultAllocator, DimDiff, DimSub, ToTypenum};
+
+/// A weight type reachable from a small non-negative integer.
+trait FromSmall: Copy + Send + Sync + 'static {
+    fn from_small(x: i64) -> Self;
+}
+macro_rules! from_small {
+    ($($t:ty),*) => { $(impl FromSmall for $t { fn from_small(x: i64) -> Self { x as $t } })* };
+}
+from_small!(i64, i32, u32, u64, usize, f32, f64);
+impl FromSmall for coupe::Real {
+    fn from_small(x: i64) -> Self {
+        coupe::Real::from(x as f64)
+    }
+}
+
+fn conv<T: FromSmall>(w: &[i64]) -> Vec<T> {
+    w.iter().map(|&x| T::from_small(x)).collect()
+}
+
+impl Wts {
+    /// the weights as small integers (`None`: some weight is not one – above 2^22 the `f32` and
+    /// `i32` instantiations would no longer carry the sums exactly)
+    fn small_ints(&self) -> Option<Vec<i64>> {
+        let v: Vec<i64> = match self {
+            Wts::I(v) => v.clone(),
+            Wts::F(v) => {
+                if v.iter().any(|x| x.fract() != 0.0 || x.abs() > 1e15) {
+                    return None;
+                }
+                v.iter().map(|&x| x as i64).collect()
+            }
+        };
+        if v.iter().any(|&x| x < 0) || v.iter().sum::<i64>() >= 1 << 22 {
+            return None;
+        }
+        Some(v)
+    }
+}
+
+const WEIGHT_TYPES: usize = 7;
+const WEIGHT_TYPE_NAMES: [&str; WEIGHT_TYPES] = ["i64", "i32", "u32", "u64", "usize", "f32", "f64"];
+
+/// Instantiate `$body` with `$T` bound to the `$k`-th weight type.
+macro_rules! with_weight_type {
+    ($k:expr, $T:ident => $body:expr) => {
+        match $k % WEIGHT_TYPES {
+            0 => { type $T = i64; $body }
+            1 => { type $T = i32; $body }
+            2 => { type $T = u32; $body }
+            3 => { type $T = u64; $body }
+            4 => { type $T = usize; $body }
+            5 => { type $T = f32; $body }
+            _ => { type $T = f64; $body }
+        }
+    };
+}
+
+/// Rcb with the point container / parallel-iterator adaptor `pform` and the weight form `wform`.
+fn rcb_forms<const D: usize, W>(algo: &mut coupe::Rcb, ids: &mut [usize], p: Vec<coupe::PointND<D>>, w: Vec<W>, pform: usize, wform: usize) -> Ret
+where
+    W: coupe::RcbWeight + 'static,
+{
+    macro_rules! with_w {
+        ($pts:expr) => {
+            match wform % 4 {
+                0 => to_ret(algo.partition(ids, ($pts, w))),
+                1 => to_ret(algo.partition(ids, ($pts, w.par_iter().cloned()))),
+                2 => to_ret(algo.partition(ids, ($pts, w.par_iter().map(|x| *x).with_max_len(1)))),
+                _ => to_ret(algo.partition(ids, ($pts, w.clone().into_par_iter().with_min_len(5)))),
+            }
+        };
+    }
+    match pform % 5 {
+        0 => with_w!(p),
+        1 => with_w!(p.par_iter().copied()),
+        2 => with_w!(p.par_iter().map(|x| *x)),
+        3 => with_w!(p.par_iter().cloned().with_min_len(7)),
+        _ => with_w!(p.par_iter().cloned().with_max_len(3)),
+    }
+}
+
+fn rib_forms<const D: usize, W>(algo: &mut coupe::Rib, ids: &mut [usize], p: &[coupe::PointND<D>], w: Vec<W>, wform: usize) -> Ret
+where
+    W: coupe::RcbWeight + 'static,
+    Const<D>: DimSub<Const<1>> + ToTypenum,
+    DefaultAllocator: Allocator<f64, Const<D>, Const<D>, Buffer = ArrayStorage<f64, D, D>> + Allocator<f64, DimDiff<Const<D>, Const<1>>>,
+{
+    match wform % 4 {
+        0 => to_ret(algo.partition(ids, (p, w))),
+        1 => to_ret(algo.partition(ids, (p, w.par_iter().cloned()))),
+        2 => to_ret(algo.partition(ids, (p, w.par_iter().map(|x| *x).with_max_len(1)))),
+        _ => to_ret(algo.partition(ids, (p, w.clone().into_par_iter().with_min_len(5)))),
+    }
+}
+
+/// Greedy / Ckk: `IntoIterator` without `ExactSizeIterator` – exact and inexact size hints.
+macro_rules! iter_forms {
+    ($algo:expr, $ids:expr, $w:expr, $form:expr) => {{
+        let w = $w;
+        match $form % 8 {
+            0 => $algo.partition($ids, w),
+            1 => $algo.partition($ids, w.iter().copied()),
+            2 => $algo.partition($ids, w.into_iter().map(|x| x)),
+            3 => $algo.partition($ids, w.into_iter().filter(|_| true)),
+            4 => $algo.partition($ids, w.iter().flat_map(|x| Some(*x))),
+            5 => {
+                let mut i = 0;
+                $algo.partition(
+                    $ids,
+                    std::iter::from_fn(move || {
+                        i += 1;
+                        w.get(i - 1).copied()
+                    }),
+                )
+            }
+            6 => {
+                let h = w.len() / 2;
+                $algo.partition($ids, w[..h].iter().copied().chain(w[h..].iter().copied()))
+            }
+            _ => $algo.partition($ids, w.into_boxed_slice().into_vec().into_iter().rev().rev()),
+        }
+    }};
+}
+
+/// KarmarkarKarp: `IntoIterator` WITH `ExactSizeIterator`.
+macro_rules! exact_iter_forms {
+    ($algo:expr, $ids:expr, $w:expr, $form:expr) => {{
+        let w = $w;
+        match $form % 5 {
+            0 => $algo.partition($ids, w),
+            1 => $algo.partition($ids, w.iter().copied()),
+            2 => $algo.partition($ids, w.into_iter().map(|x| x)),
+            3 => $algo.partition($ids, (0..w.len()).map(|i| w[i])),
+            _ => $algo.partition($ids, w.into_iter().rev().rev()),
+        }
+    }};
+}
+
+/// The case through another legal input type of the same `Partition` impl (`k` selects the
+/// container / adaptor and the weight type). `None`: this algorithm has a single input type, or
+/// the weights are not small integers.
+fn call_plumb(case: Case, mut ids: Vec<usize>, k: usize) -> Option<(Ret, Vec<usize>, String)> {
+    let (ret, name) = match case {
+        Case::Bisect { rib, dim, iter, tol, pts, w } => {
+            let wi = w.small_ints()?;
+            let (pform, wform, wt) = (k % 5, (k / 5) % 4, k / 20);
+            let name = format!("{}:p{}:w{}:{}", if rib { "rib" } else { "rcb" }, if rib { 0 } else { pform }, wform, WEIGHT_TYPE_NAMES[wt % WEIGHT_TYPES]);
+            let mut rcb = coupe::Rcb { iter_count: iter, tolerance: tol };
+            let mut ribv = coupe::Rib { iter_count: iter, tolerance: tol };
+            let ret = with_weight_type!(wt, T => {
+                let w: Vec<T> = conv(&wi);
+                match (rib, dim) {
+                    (false, 2) => rcb_forms::<2, T>(&mut rcb, &mut ids, points!(2, pts), w, pform, wform),
+                    (false, _) => rcb_forms::<3, T>(&mut rcb, &mut ids, points!(3, pts), w, pform, wform),
+                    (true, 2) => rib_forms::<2, T>(&mut ribv, &mut ids, &points!(2, pts), w, wform),
+                    (true, _) => rib_forms::<3, T>(&mut ribv, &mut ids, &points!(3, pts), w, wform),
+                }
+            });
+            (ret, name)
+        }
+        Case::Hilbert { dim, parts, order, pts, w } => {
+            let mut algo = coupe::HilbertCurve { part_count: parts, order };
+            let form = k % 6;
+            macro_rules! go {
+                ($p:expr) => {
+                    match form {
+                        0 => algo.partition(&mut ids, ($p, w.clone())),
+                        1 => algo.partition(&mut ids, ($p, &w)),
+                        2 => algo.partition(&mut ids, ($p, w.clone().into_boxed_slice())),
+                        3 => algo.partition(&mut ids, ($p, std::rc::Rc::<[f64]>::from(w.clone()))),
+                        4 => algo.partition(&mut ids, ($p, std::borrow::Cow::Borrowed(&w[..]))),
+                        _ => algo.partition(&mut ids, ($p, std::sync::Arc::new(w.clone()).as_ref())),
+                    }
+                };
+            }
+            let r = if dim == 2 {
+                let p = points!(2, pts);
+                go!(&p[..])
+            } else {
+                let p = points!(3, pts);
+                go!(&p[..])
+            };
+            let ret = match r {
+                Ok(()) => Ret::Ok,
+                Err(coupe::HilbertCurveError::InvalidOrder { .. }) => Ret::InvalidOrder,
+                #[allow(unreachable_patterns)]
+                Err(e) => Ret::Other(format!("{:?}", e)),
+            };
+            (ret, format!("hilbert:w{}", form))
+        }
+        Case::Greedy { parts, w } => {
+            let wi = w.small_ints()?;
+            let (form, wt) = (k % 8, k / 8);
+            let mut algo = coupe::Greedy { part_count: parts };
+            let ret = with_weight_type!(wt, T => to_ret(iter_forms!(algo, &mut ids, conv::<T>(&wi), form)));
+            (ret, format!("greedy:it{}:{}", form, WEIGHT_TYPE_NAMES[wt % WEIGHT_TYPES]))
+        }
+        Case::Kk { parts, w } => {
+            let wi = Wts::I(w).small_ints()?;
+            let (form, wt) = (k % 5, (k / 5) % 6);
+            let mut algo = coupe::KarmarkarKarp { part_count: parts };
+            // `Ord` weights: the integer types and `coupe::Real`
+            let (ret, tn) = match wt {
+                0 => (to_ret(exact_iter_forms!(algo, &mut ids, conv::<i64>(&wi), form)), "i64"),
+                1 => (to_ret(exact_iter_forms!(algo, &mut ids, conv::<i32>(&wi), form)), "i32"),
+                2 => (to_ret(exact_iter_forms!(algo, &mut ids, conv::<u32>(&wi), form)), "u32"),
+                3 => (to_ret(exact_iter_forms!(algo, &mut ids, conv::<u64>(&wi), form)), "u64"),
+                4 => (to_ret(exact_iter_forms!(algo, &mut ids, conv::<usize>(&wi), form)), "usize"),
+                _ => (to_ret(exact_iter_forms!(algo, &mut ids, conv::<coupe::Real>(&wi), form)), "Real"),
+            };
+            (ret, format!("kk:it{}:{}", form, tn))
+        }
+        Case::Ckk { tol, w } => {
+            let wi = Wts::I(w).small_ints()?;
+            let (form, wt) = (k % 8, (k / 8) % 4);
+            let mut algo = coupe::CompleteKarmarkarKarp { tolerance: tol };
+            // the weights are integers, so `w <= tol` agrees for the truncated and the exact bound
+            let (ret, tn) = match wt {
+                0 => (to_ret(iter_forms!(algo, &mut ids, conv::<i64>(&wi), form)), "i64"),
+                1 => (to_ret(iter_forms!(algo, &mut ids, conv::<i32>(&wi), form)), "i32"),
+                2 => (to_ret(iter_forms!(algo, &mut ids, conv::<u64>(&wi), form)), "u64"),
+                _ => (to_ret(iter_forms!(algo, &mut ids, conv::<f64>(&wi), form)), "f64"),
+            };
+            (ret, format!("ckk:it{}:{}", form, tn))
+        }
+        Case::Grid { dims, iter, w } => {
+            let wi = w.small_ints()?;
+            let nz = |x: usize| std::num::NonZeroUsize::new(x).unwrap();
+            // the thresholds are converted to the weight type (`as_()`): truncated for the integer
+            // types, kept for the float types – so a type of the same class as the op's weights
+            // (f32 rounds the thresholds once more: oracle only, see `run_op`)
+            let k = match w {
+                Wts::I(_) => k % 5,
+                Wts::F(_) => 5 + k % 2,
+            };
+            with_weight_type!(k, T => {
+                let w: Vec<T> = conv(&wi);
+                if dims.len() == 2 {
+                    coupe::Grid::new_2d(nz(dims[0]), nz(dims[1])).rcb(&mut ids, &w[..], iter)
+                } else {
+                    coupe::Grid::new_3d(nz(dims[0]), nz(dims[1]), nz(dims[2])).rcb(&mut ids, &w[..], iter)
+                }
+            });
+            (Ret::Ok, format!("grid:{}", WEIGHT_TYPE_NAMES[k % WEIGHT_TYPES]))
+        }
+        _ => return None,
+    };
+    Some((ret, ids, name))
+}
+
+/// The case through the tools entry point: `coupe_tools::parse_algorithm("<name>,<args>")` on a
+/// `Problem` whose mesh is one vertex element per point (its barycentre is the point itself) and
+/// whose weight array has one criterion. `None`: the tools do not expose this algorithm.
+fn call_tools(case: Case, mut ids: Vec<usize>) -> Option<(Ret, Vec<usize>)> {
+    fn weights(w: &Wts) -> mesh_io::weight::Array {
+        match w {
+            Wts::I(v) => mesh_io::weight::Array::Integers(v.iter().map(|&x| vec![x]).collect()),
+            Wts::F(v) => mesh_io::weight::Array::Floats(v.iter().map(|&x| vec![x]).collect()),
+        }
+    }
+    fn run<const D: usize>(spec: &str, pts: Option<&[f64]>, w: mesh_io::weight::Array, ids: &mut [usize]) -> Ret
+    where
+        Const<D>: DimSub<Const<1>> + ToTypenum,
+        DefaultAllocator: Allocator<f64, Const<D>, Const<D>, Buffer = ArrayStorage<f64, D, D>> + Allocator<f64, DimDiff<Const<D>, Const<1>>>,
+    {
+        let problem = match pts {
+            None => coupe_tools::Problem::<D>::without_mesh(w),
+            Some(p) => {
+                let n = p.len() / D;
+                let mesh = mesh_io::Mesh::from_raw_parts(
+                    D,
+                    p.to_vec(),
+                    vec![0; n],
+                    vec![(mesh_io::ElementType::Vertex, (0..n).collect(), vec![0; n])],
+                );
+                coupe_tools::Problem::<D>::new(mesh, w, coupe_tools::EdgeWeightDistribution::Uniform)
+            }
+        };
+        match coupe_tools::parse_algorithm::<D>(spec) {
+            Err(e) => Ret::Other(format!("parse_algorithm: {}", e)),
+            Ok(mut algo) => {
+                let mut runner = algo.to_runner(&problem);
+                match runner(ids) {
+                    Ok(_) => Ret::Ok,
+                    Err(e) => match e.downcast_ref::<coupe::Error>() {
+                        Some(coupe::Error::NotFound) => Ret::NotFound,
+                        Some(coupe::Error::InputLenMismatch { .. }) => Ret::LenMismatch,
+                        _ => Ret::Other(format!("{}", e)),
+                    },
+                }
+            }
+        }
+    }
+    let ret = match case {
+        Case::Bisect { rib: false, dim, iter, tol, pts, w } => {
+            let spec = format!("rcb,{},{}", iter, tol);
+            if dim == 2 {
+                run::<2>(&spec, Some(&pts), weights(&w), &mut ids)
+            } else {
+                run::<3>(&spec, Some(&pts), weights(&w), &mut ids)
+            }
+        }
+        Case::Hilbert { dim, parts, order, pts, w } => {
+            let spec = format!("hilbert,{},{}", parts, order);
+            if dim == 2 {
+                run::<2>(&spec, Some(&pts), weights(&Wts::F(w)), &mut ids)
+            } else {
+                run::<3>(&spec, Some(&pts), weights(&Wts::F(w)), &mut ids)
+            }
+        }
+        Case::Greedy { parts, w } => run::<2>(&format!("greedy,{}", parts), None, weights(&w), &mut ids),
+        // float weights reach KarmarkarKarp as `coupe::Real`
+        Case::Kk { parts, w } => {
+            let w = if parts % 2 == 0 { Wts::I(w) } else { Wts::F(as_f(&w)) };
+            run::<3>(&format!("kk,{}", parts), None, weights(&w), &mut ids)
+        }
+        Case::Ckk { tol, w } => run::<2>(&format!("ckk,{}", tol), None, weights(&Wts::I(w)), &mut ids),
+        _ => return None,
+    };
+    Some((ret, ids))
+}
+
+/// brute-force statement of the property on one id array (used inside the concurrent runs)
+fn ids_ok(ids: &[usize], parts: usize) -> bool {
+    ids.iter().all(|&x| x != usize::MAX && x < parts)
+}
+
+/// `calls` concurrent calls from one parallel loop of the current pool, alternately on the case
+/// and on its element-reversed twin (two different inputs in flight at once); every result must
+/// pass the oracle and – `exact` – equal the result of the same call made alone in the same pool.
+fn call_many(case: Case, m: usize, calls: usize, exact: bool) -> (Ret, Vec<usize>) {
+    let twin = case.reversed();
+    let parts = case.parts();
+    let (r_a, ids_a) = call(case.clone(), vec![usize::MAX; m], false);
+    let (r_b, ids_b) = call(twin.clone(), vec![usize::MAX; m], false);
+    let results: Vec<(Ret, Vec<usize>)> = (0..calls)
+        .into_par_iter()
+        .with_max_len(1)
+        .map(|i| call(if i % 2 == 0 { case.clone() } else { twin.clone() }, vec![usize::MAX; m], false))
+        .collect();
+    for (i, (r, ids)) in results.into_iter().enumerate() {
+        let (r0, ids0) = if i % 2 == 0 { (&r_a, &ids_a) } else { (&r_b, &ids_b) };
+        if r == Ret::Ok && !ids_ok(&ids, parts) && i % 2 == 0 {
+            return (r, ids); // judged by the oracle of the caller
+        }
+        if r != *r0 || (r == Ret::Ok && (!ids_ok(&ids, parts) || (exact && ids != *ids0))) {
+            let at = (0..m).find(|&j| ids[j] != ids0[j]);
+            return (
+                Ret::Mismatch(format!(
+                    "context-dependent|concurrent call #{} of {} ({} input) returned {:?}, alone {:?}; first differing element {:?}",
+                    i, calls, if i % 2 == 0 { "the" } else { "the reversed" }, r, r0, at
+                )),
+                ids,
+            );
+        }
+    }
+    (r_a, ids_a)
 }
 
 #[derive(Clone, Copy, PartialEq, Debug)]
@@ -897,6 +1305,54 @@ enum Reuse {
     WScale { pow2: bool },
     /// coordinates × s
     CScale { pow2: bool },
+    /// some +0.0 weights / coordinates replaced by -0.0
+    NegZero,
+    /// another legal input type of the same `Partition` impl
+    Plumb(usize),
+    /// through `coupe_tools::parse_algorithm`
+    Tools,
+    /// on the global rayon pool (no `install`)
+    CtxGlobal,
+    /// from inside a rayon task of the pool
+    CtxTask,
+    /// that many concurrent calls from one parallel loop of the pool
+    CtxMany(usize),
+    /// member of a first-call sequence (its id hash is logged)
+    Seq,
+}
+
+/// FNV-1a of an id array (sequence cases: compared between a fresh child process and this one)
+fn ids_hash(ids: &[usize]) -> u64 {
+    let mut h = 0xcbf29ce484222325u64;
+    for &x in ids {
+        for b in (x as u64).to_le_bytes() {
+            h = (h ^ b as u64).wrapping_mul(0x100000001b3);
+        }
+    }
+    h
+}
+
+static SEQ_LOG: Mutex<Vec<String>> = Mutex::new(Vec::new());
+
+fn seq_log(line: String) {
+    if let Ok(path) = std::env::var("C01_SEQ_OUT") {
+        use std::io::Write as _;
+        if let Ok(mut f) = std::fs::OpenOptions::new().create(true).append(true).open(path) {
+            let _ = writeln!(f, "{}", line);
+        }
+    }
+    if let Ok(mut g) = SEQ_LOG.lock() {
+        g.push(line);
+    }
+}
+
+/// A run of `f` under a `t`-thread pool (`t = 0`: no pool of ours, i.e. rayon's global pool) and
+/// the watchdog.
+fn exec_with(
+    t: usize,
+    f: impl FnOnce() -> (Ret, Vec<usize>) + Send + 'static,
+) -> Caught<(Ret, Vec<usize>)> {
+    catch_timeout(HANG_SECS, move || if t == 0 { f() } else { with_big_pool(t, f) })
 }
 
 /// `2^k` | `1e300/total` | a decimal literal → (factor, is a power of two)
@@ -931,6 +1387,7 @@ pub fn run_op(ctx: &mut Ctx, op: &str) {
         return;
     }
     let mut scale_spec: Option<(&str, bool)> = None; // (spec, weights?)
+    let mut negzero_spec: Option<&str> = None;
     let (mut reuse, inner) = if let Some(r) = op.strip_prefix("reuse-twice ") {
         (Reuse::Twice, r)
     } else if let Some(r) = op.strip_prefix("reuse-buf ") {
@@ -940,13 +1397,50 @@ pub fn run_op(ctx: &mut Ctx, op: &str) {
         let spec = it.next().unwrap_or("");
         scale_spec = Some((spec, op.starts_with("wscale ")));
         (Reuse::No, it.next().unwrap_or(""))
+    } else if let Some(r) = op.strip_prefix("negzero ") {
+        let mut it = r.splitn(2, ' ');
+        negzero_spec = it.next();
+        (Reuse::NegZero, it.next().unwrap_or(""))
+    } else if let Some(r) = op.strip_prefix("plumb ") {
+        let mut it = r.splitn(2, ' ');
+        let k = it.next().and_then(|x| x.parse().ok()).unwrap_or(0);
+        (Reuse::Plumb(k), it.next().unwrap_or(""))
+    } else if let Some(r) = op.strip_prefix("ctx-many ") {
+        let mut it = r.splitn(2, ' ');
+        let k: usize = it.next().and_then(|x| x.parse().ok()).unwrap_or(8);
+        (Reuse::CtxMany(k.clamp(2, 64)), it.next().unwrap_or(""))
+    } else if let Some(r) = op.strip_prefix("tools ") {
+        (Reuse::Tools, r)
+    } else if let Some(r) = op.strip_prefix("ctx-global ") {
+        (Reuse::CtxGlobal, r)
+    } else if let Some(r) = op.strip_prefix("ctx-task ") {
+        (Reuse::CtxTask, r)
+    } else if let Some(r) = op.strip_prefix("seq ") {
+        (Reuse::Seq, r)
     } else {
         (Reuse::No, op)
     };
-    let Some((case, ts, m)) = parse_op(inner) else {
+    let Some((case, mut ts, m)) = parse_op(inner) else {
         ctx.record(op.to_string(), "bad-op".into(), false);
         return;
     };
+    if reuse == Reuse::CtxGlobal {
+        // compared with a pool of ours of the global pool's size (Grid::rcb reads the size)
+        ts = vec![coupe::rayon::current_num_threads().clamp(1, 64)];
+    }
+    let mut negzero: Option<Case> = None;
+    if reuse == Reuse::NegZero {
+        match negzero_spec.and_then(|sp| case.with_negzeros(sp)) {
+            Some((c, flipped)) => {
+                ctx.count(if flipped == 0 { "special:negzero:none-to-flip" } else if flipped % 2 == 1 { "special:negzero:odd" } else { "special:negzero:even" });
+                negzero = Some(c);
+            }
+            None => {
+                ctx.record(op.to_string(), "bad-op".into(), false);
+                return;
+            }
+        }
+    }
     // the scaled twin of a scale case
     let mut scaled: Option<Case> = None;
     if let Some((spec, weights)) = scale_spec {
@@ -989,7 +1483,15 @@ pub fn run_op(ctx: &mut Ctx, op: &str) {
         ctx.count(&format!("pool_size_{:02}", t));
         let (mut v, mut f) = verdict(&case, &algo, t, m, ooc, &fresh);
         let mut hung = matches!(fresh, Caught::Hang);
-        if reuse != Reuse::No && f.is_none() && ooc.is_none() {
+        let mut plumb_exact = true;
+        if reuse == Reuse::Seq {
+            let h = match &fresh {
+                Caught::Ok((Ret::Ok, ids)) => format!("{:016x}", ids_hash(ids)),
+                _ => "-".into(),
+            };
+            seq_log(format!("{} T={} {} {}", algo, t, v, h));
+        }
+        if reuse != Reuse::No && reuse != Reuse::Seq && f.is_none() && ooc.is_none() {
             // the history run: same value twice / reused array
             let second = match reuse {
                 Reuse::Twice => Some(exec(&case, t, vec![usize::MAX; m], true)),
@@ -997,6 +1499,67 @@ pub fn run_op(ctx: &mut Ctx, op: &str) {
                     (Some(c), None) => Some(exec(c, t, vec![usize::MAX; m], false)),
                     _ => None,
                 },
+                Reuse::NegZero => negzero.as_ref().map(|c| exec(c, t, vec![usize::MAX; m], false)),
+                Reuse::Plumb(k) => {
+                    let c = case.clone();
+                    let name = std::sync::Arc::new(Mutex::new(None::<String>));
+                    let name2 = name.clone();
+                    let r = exec_with(t, move || match call_plumb(c, vec![usize::MAX; m], k) {
+                        Some((r, ids, nm)) => {
+                            if let Ok(mut g) = name2.lock() {
+                                *g = Some(nm);
+                            }
+                            (r, ids)
+                        }
+                        None => (Ret::Other("plumb-not-applicable".into()), Vec::new()),
+                    });
+                    if let Some(nm) = name.lock().ok().and_then(|g| g.clone()) {
+                        plumb_exact = nm != "grid:f32";
+                        for part in nm.split(':').skip(1) {
+                            ctx.count(&format!("plumbing:{}:{}", nm.split(':').next().unwrap_or(""), part));
+                        }
+                    }
+                    match r {
+                        Caught::Ok((Ret::Other(e), _)) if e == "plumb-not-applicable" => {
+                            ctx.count("plumbing:not-applicable");
+                            None
+                        }
+                        r => Some(r),
+                    }
+                }
+                Reuse::Tools => {
+                    let c = case.clone();
+                    let r = exec_with(t, move || match call_tools(c, vec![usize::MAX; m]) {
+                        Some(x) => x,
+                        None => (Ret::Other("tools-not-applicable".into()), Vec::new()),
+                    });
+                    match r {
+                        Caught::Ok((Ret::Other(e), _)) if e == "tools-not-applicable" => {
+                            ctx.count("plumbing:tools-not-applicable");
+                            None
+                        }
+                        r => Some(r),
+                    }
+                }
+                Reuse::CtxGlobal => {
+                    let c = case.clone();
+                    Some(exec_with(0, move || call(c, vec![usize::MAX; m], false)))
+                }
+                Reuse::CtxTask => {
+                    let c = case.clone();
+                    Some(exec_with(t, move || {
+                        let (r, _) = coupe::rayon::join(|| call(c, vec![usize::MAX; m], false), || std::hint::black_box(1usize));
+                        r
+                    }))
+                }
+                Reuse::CtxMany(calls) => {
+                    let c = case.clone();
+                    // MultiJagged numbers its leaves in completion order: no exact claim off one thread
+                    let exact = !matches!(case, Case::Mj { .. }) || t == 1;
+                    ctx.count_n("pool_runs", calls as u64 + 1);
+                    Some(exec_with(t, move || call_many(c, m, calls, exact)))
+                }
+                Reuse::Seq | Reuse::No => None,
                 _ => {
                     let pre_case = case.more_parts();
                     match exec(&pre_case, t, vec![usize::MAX; m], false) {
@@ -1024,16 +1587,52 @@ pub fn run_op(ctx: &mut Ctx, op: &str) {
                         // exact only for a power of two; Grid's result depends on the pool size but
                         // not on the schedule
                         Reuse::WScale { pow2 } => {
-                            (pow2 && (t == 1 || sequential || matches!(case, Case::Grid { .. })), "scale")
+                            // products and quotients round differently in the subnormal range: there
+                            // only Greedy (sums and comparisons, exact) is scale-free
+                            let sub = |c: &Case| {
+                                let chk = |v: &Vec<f64>| v.iter().any(|&x| x != 0.0 && x.abs() < f64::MIN_POSITIVE);
+                                match c {
+                                    Case::Bisect { w: Wts::F(w), .. } | Case::Grid { w: Wts::F(w), .. } => chk(w),
+                                    Case::Hilbert { w, .. } | Case::Mj { w, .. } => chk(w),
+                                    _ => false,
+                                }
+                            };
+                            let subnormal = sub(&case) || scaled.as_ref().map(|c| sub(c)).unwrap_or(false);
+                            // weighted_quantiles computes `(p + 1) * total / n`: the product overflows
+                            // for totals above f64::MAX / part_count and the split targets become
+                            // infinite (ids stay valid, the balance and scale-freedom are lost; reported
+                            // as an observation): no exact claim there
+                            let hil_overflow = |c: &Case| match c {
+                                Case::Hilbert { parts, w, .. } => !(*parts as f64 * w.iter().sum::<f64>()).is_finite(),
+                                _ => false,
+                            };
+                            if hil_overflow(&case) || scaled.as_ref().map(|c| hil_overflow(c)).unwrap_or(false) {
+                                ctx.count("scale_not_compared:hilbert-parts-x-total-overflows");
+                            }
+                            let subnormal = subnormal
+                                || hil_overflow(&case)
+                                || scaled.as_ref().map(|c| hil_overflow(c)).unwrap_or(false);
+                            (
+                                pow2 && !subnormal && (t == 1 || sequential || matches!(case, Case::Grid { .. })),
+                                "scale",
+                            )
                         }
                         Reuse::CScale { pow2 } => (
                             pow2 && t == 1 && matches!(case, Case::Bisect { rib: false, .. } | Case::Mj { .. }),
                             "scale",
                         ),
-                        Reuse::No => (false, ""),
+                        Reuse::NegZero => (t == 1 || sequential || matches!(case, Case::Grid { .. }), "negzero"),
+                        Reuse::Plumb(_) => {
+                            (plumb_exact && (t == 1 || sequential || matches!(case, Case::Grid { .. })), "input-type")
+                        }
+                        Reuse::Tools => (t == 1 || sequential, "tools"),
+                        Reuse::CtxGlobal | Reuse::CtxTask | Reuse::CtxMany(_) => {
+                            (!matches!(case, Case::Mj { .. }) || t == 1, "context")
+                        }
+                        Reuse::Seq | Reuse::No => (false, ""),
                     };
                     if comparable && *r1 == Ret::Ok && *r2 == Ret::Ok {
-                        ctx.count(if word == "scale" { "scale_compared" } else { "reuse_compared" });
+                        ctx.count(&format!("{}_compared", if word == "history" { "reuse" } else { word }));
                         if let Some(i) = (0..m).find(|&i| ids1[i] != ids2[i]) {
                             v = format!("{}-dependent {:?}", word, reuse);
                             f = Some((
@@ -1092,6 +1691,13 @@ pub fn run_op(ctx: &mut Ctx, op: &str) {
         Reuse::Twice | Reuse::Buf => ctx.count("reuse"),
         Reuse::WScale { .. } => ctx.count("wscale"),
         Reuse::CScale { .. } => ctx.count("cscale"),
+        Reuse::NegZero => ctx.count("special:negzero"),
+        Reuse::Plumb(_) => ctx.count("plumbing:input-type"),
+        Reuse::Tools => ctx.count("plumbing:tools-entry"),
+        Reuse::CtxGlobal => ctx.count("context:global-pool"),
+        Reuse::CtxTask => ctx.count("context:inside-task"),
+        Reuse::CtxMany(_) => ctx.count("context:concurrent-calls"),
+        Reuse::Seq => ctx.count("context:first-call-sequence"),
         Reuse::No => {}
     }
     if ooc.is_none() && n > 0 && n <= MODEL_MAX_N {
@@ -1709,6 +2315,254 @@ fn scale_stream(ctx: &mut Ctx, ts: &[usize]) {
     }
 }
 
+fn set_f_weights(case: &mut Case, w: Vec<f64>) {
+    match case {
+        Case::Bisect { w: cw, .. } | Case::Greedy { w: cw, .. } | Case::Grid { w: cw, .. } => *cw = Wts::F(w),
+        Case::Hilbert { w: cw, .. } | Case::Mj { w: cw, .. } => *cw = w,
+        _ => {}
+    }
+}
+
+fn set_points(ctx: &mut Ctx, case: &mut Case, f: impl Fn(&mut Rng, usize, usize) -> Vec<f64>) {
+    match case {
+        Case::Bisect { dim, pts, .. } | Case::Hilbert { dim, pts, .. } | Case::ZCurve { dim, pts, .. } | Case::Mj { dim, pts, .. } => {
+            let n = pts.len() / *dim;
+            *pts = f(&mut ctx.rng, *dim, n);
+        }
+        _ => {}
+    }
+}
+
+/// One case of kind `which` on exactly `n` elements (grids: `n` x 1 [x 1]).
+fn sized_case(ctx: &mut Ctx, which: usize, n: usize) -> Case {
+    let mut case = random_case(ctx, which, n.max(3), false);
+    if let Case::Grid { dims, w, .. } = &mut case {
+        let d = dims.len();
+        *dims = if d == 2 { vec![n, 1] } else { vec![1, n, 1] };
+        let wv = gen_weights(&mut ctx.rng, n, "spread");
+        *w = Wts::F(as_f(&wv));
+    }
+    case
+}
+
+/// SPECIAL-VALUES / PLUMBING / CONTEXT stream (see the module doc for the op prefixes).
+fn special_stream(ctx: &mut Ctx) {
+    let rounds = ctx.budget(1, 4);
+    let t13: [usize; 2] = [1, 3];
+    for _ in 0..rounds {
+        // --- signed zero: as a weight …
+        for which in [0usize, 1, 2, 4, 5, 8] {
+            for spec in ["w1", "w2", "wall"] {
+                let n = gen_n(&mut ctx.rng, 120);
+                let mut case = random_case(ctx, which, n, false);
+                let cells = case.n();
+                let w = gen_weights(&mut ctx.rng, cells, "zeros");
+                set_f_weights(&mut case, as_f(&w));
+                let op = format!("negzero {} {}", spec, case.format(&t13, None));
+                run_op(ctx, &op);
+            }
+        }
+        // … and as a coordinate, between negative and positive ones (a lattice around the origin)
+        for which in [0usize, 1, 2, 3, 4] {
+            for spec in ["c1", "c2", "call"] {
+                let n = gen_n(&mut ctx.rng, 120);
+                let mut case = random_case(ctx, which, n, false);
+                set_points(ctx, &mut case, |rng, dim, n| {
+                    gen_points(rng, dim, n, "lattice").into_iter().map(|x| x - 2.0).collect()
+                });
+                let op = format!("negzero {} {}", spec, case.format(&t13, None));
+                run_op(ctx, &op);
+            }
+        }
+        // --- extreme magnitudes of f64 weights, each compared with its twin scaled by a power of two
+        // into the middle of the range: totals just below overflow (total x 1.01 overflows), the
+        // smallest normal number from both sides, subnormal totals
+        let max = f64::MAX;
+        let mp = f64::MIN_POSITIVE;
+        let extremes: [(&str, Vec<f64>, &str); 4] = [
+            ("total-near-overflow-3", vec![max / 2.0, 5e307, 3.9e307], "2^-600"),
+            ("total-near-overflow-40", vec![4.46e306; 40], "2^-600"),
+            ("around-min-normal", vec![mp, mp - 5e-324, mp + 5e-324, 2.0 * mp, 0.0, 3.0 * mp], "2^600"),
+            ("subnormal-64", vec![1e-310; 64], "2^600"),
+        ];
+        for (name, w, spec) in &extremes {
+            for which in [0usize, 1, 2, 4, 5, 8] {
+                let mut case = sized_case(ctx, which, w.len());
+                let mut w = w.clone();
+                if which != 5 && ctx.rng.chance(1, 2) {
+                    w.reverse();
+                }
+                set_f_weights(&mut case, w);
+                ctx.count(&format!("special:weights:{}", name));
+                let op = format!("wscale {} {}", spec, case.format(&t13, None));
+                run_op(ctx, &op);
+            }
+        }
+        // --- f32 collisions: coordinates distinct as f64, equal after `as f32` (Rcb / Rib convert);
+        // and the edge of the f32 range on the legal side ("finite after the conversion")
+        for which in [0usize, 1, 2, 3, 4] {
+            let n = gen_n(&mut ctx.rng, 200);
+            let mut case = random_case(ctx, which, n, false);
+            set_points(ctx, &mut case, |rng, dim, n| {
+                gen_points(rng, dim, n, "lattice")
+                    .into_iter()
+                    .map(|x| x + 1.0 + rng.range(0, 7) as f64 * 2f64.powi(-45))
+                    .collect()
+            });
+            ctx.count("special:f32-collisions");
+            emit(ctx, &case, &[1, 2, 3, 16]);
+        }
+        for _ in 0..2 {
+            let n = gen_n(&mut ctx.rng, 60);
+            let mut case = random_case(ctx, 0, n, false);
+            let edge = [f32::MAX as f64, -(f32::MAX as f64), 3.0e38, 3.2e38, -3.3e38, 1e38, 0.0, 3.4028235e38];
+            set_points(ctx, &mut case, |rng, dim, n| (0..n * dim).map(|_| *rng.pick(&edge)).collect());
+            ctx.count("special:f32-range-edge");
+            emit(ctx, &case, &[1, 2, 3, 16]);
+        }
+        // --- input types: every container / adaptor / weight type the impl accepts
+        for which in [0usize, 1, 2, 5, 6, 7, 8] {
+            for _ in 0..ctx.budget(6, 12) {
+                let n = gen_n(&mut ctx.rng, 150);
+                let case = random_case(ctx, which, n, false);
+                let k = ctx.rng.usize(5 * 4 * 7 * 8);
+                let op = format!("plumb {} {}", k, case.format(&t13, None));
+                run_op(ctx, &op);
+            }
+        }
+        // --- the tools entry point (names: rcb, hilbert, greedy, kk, ckk; random is always run through it)
+        for which in [0usize, 2, 5, 6, 7] {
+            for _ in 0..3 {
+                let n = gen_n(&mut ctx.rng, 150);
+                let case = random_case(ctx, which, n, false);
+                let op = format!("tools {}", case.format(&t13, None));
+                run_op(ctx, &op);
+            }
+        }
+        // --- calling contexts
+        for which in 0..10usize {
+            let n = gen_n(&mut ctx.rng, 120);
+            let case = random_case(ctx, which, n, false);
+            run_op(ctx, &format!("ctx-global {}", case.format(&[1], None)));
+            let case = random_case(ctx, which, n, false);
+            run_op(ctx, &format!("ctx-task {}", case.format(&[2, 16], None)));
+            let case = random_case(ctx, which, n, false);
+            let calls = 8 + ctx.rng.usize(25);
+            run_op(ctx, &format!("ctx-many {} {}", calls, case.format(&[4, 16], None)));
+        }
+    }
+    first_call_sequences(ctx);
+}
+
+/// Process-level state: each sequence is run FIRST THING in a fresh child process (`replay` mode of
+/// this binary) and again here, in a process that has already called everything; the id hashes of
+/// the two must agree and every member must pass the oracle in both.
+fn first_call_sequences(ctx: &mut Ctx) {
+    let exe = match std::env::current_exe() {
+        Ok(e) => e,
+        Err(_) => {
+            ctx.count("context:first-call-sequence:no-exe");
+            return;
+        }
+    };
+    // (dimension, kind) orders; the curve orders are the maxima of each dimension, so a maximum
+    // cached by the first instantiation would refuse (or mis-encode) the second
+    let mut mk = |ctx: &mut Ctx, which: usize, dim: usize, n: usize| -> Case {
+        let mut case = random_case(ctx, which, n, false);
+        let pm = *ctx.rng.pick(&["uniform", "lattice", "clustered"]);
+        let pts2 = gen_points(&mut ctx.rng, dim, n, pm);
+        match &mut case {
+            Case::Bisect { dim: d, pts, .. } | Case::Mj { dim: d, pts, .. } => {
+                *d = dim;
+                *pts = pts2;
+            }
+            Case::Hilbert { dim: d, pts, order, .. } => {
+                *d = dim;
+                *pts = pts2;
+                *order = if dim == 2 { 32 } else { 21 };
+            }
+            Case::ZCurve { dim: d, pts, order, .. } => {
+                *d = dim;
+                *pts = pts2;
+                *order = if dim == 2 { 64 } else { 42 };
+            }
+            Case::Grid { dims, w, .. } => {
+                let side = 5;
+                *dims = vec![side; dim];
+                let cells = side.pow(dim as u32);
+                let wv = gen_weights(&mut ctx.rng, cells, "spread");
+                *w = if dim == 2 { Wts::I(wv) } else { Wts::F(as_f(&wv)) };
+            }
+            _ => {}
+        }
+        case
+    };
+    let plans: [&[(usize, usize)]; 7] = [
+        &[(2, 3), (2, 2), (2, 3)],                 // Hilbert 3-D (order 21) first, then 2-D order 32
+        &[(2, 2), (2, 3), (2, 2)],                 // and the other way round
+        &[(3, 3), (3, 2), (3, 3)],                 // ZCurve 3-D (order 42) first, then 2-D order 64
+        &[(3, 2), (3, 3)],
+        &[(0, 3), (1, 2), (0, 2), (1, 3), (4, 3), (4, 2)], // Rcb / Rib / MultiJagged, 3-D first
+        &[(8, 3), (8, 2), (5, 2), (6, 2), (7, 2), (9, 2)], // Grid f64 3-D, Grid i64 2-D, then the number partitioners
+        &[(7, 2), (6, 2), (5, 2), (2, 2), (3, 3), (0, 2)], // the number partitioners first
+    ];
+    for (pi, plan) in plans.iter().enumerate() {
+        let ops: Vec<String> = plan
+            .iter()
+            .map(|&(which, dim)| {
+                let n = 20 + ctx.rng.usize(60);
+                format!("seq {}", mk(ctx, which, dim, n).format(&[1], None))
+            })
+            .collect();
+        let dir = std::env::temp_dir().join(format!("c01-seq-{}-{}-{}", std::process::id(), ctx.seed, pi));
+        let _ = std::fs::create_dir_all(&dir);
+        let ops_file = dir.join("ops.txt");
+        let log_file = dir.join("seq.log");
+        let text: String = ops.iter().map(|o| format!("C01 {}\n", o)).collect();
+        let child_ok = std::fs::write(&ops_file, text).is_ok()
+            && std::process::Command::new(&exe)
+                .args(["replay", "C01", "--ops"])
+                .arg(&ops_file)
+                .arg("--out")
+                .arg(dir.join("out"))
+                .env("C01_SEQ_OUT", &log_file)
+                .stdout(std::process::Stdio::null())
+                .stderr(std::process::Stdio::null())
+                .status()
+                .map(|st| st.success())
+                .unwrap_or(false);
+        let child_log: Vec<String> =
+            std::fs::read_to_string(&log_file).map(|t| t.lines().map(|l| l.to_string()).collect()).unwrap_or_default();
+        // the same ops here
+        let start = SEQ_LOG.lock().map(|g| g.len()).unwrap_or(0);
+        let first_idx = ctx.ops.len();
+        for o in &ops {
+            run_op(ctx, o);
+        }
+        let here: Vec<String> = SEQ_LOG.lock().map(|g| g[start..].to_vec()).unwrap_or_default();
+        let _ = std::fs::remove_dir_all(&dir);
+        if !child_ok || child_log.len() != ops.len() {
+            // the child could not be run (or died): nothing to compare; a crash on these inputs
+            // would show here as well
+            ctx.count("context:first-call-sequence:child-unavailable");
+            if child_log.len() < ops.len() && child_ok {
+                continue;
+            }
+        }
+        for (i, (a, b)) in child_log.iter().zip(here.iter()).enumerate() {
+            ctx.count("sequence_compared");
+            if a != b && first_idx + i < ctx.ops.len() {
+                let algo = a.split(' ').next().unwrap_or("?").to_string();
+                ctx.fail(
+                    first_idx + i,
+                    &format!("first-call-dependent@{}", algo),
+                    format!("as call #{} of a fresh process: `{}`; in this process: `{}` (sequence {})", i + 1, a, b, pi),
+                );
+            }
+        }
+    }
+}
+
 /// REUSE stream: the same algorithm value called twice, and an id array reused after a run with
 /// more parts (see the module doc).
 fn reuse_stream(ctx: &mut Ctx) {
@@ -1854,6 +2708,7 @@ pub fn generate(ctx: &mut Ctx) {
     corner_stream(ctx, &corner_ts);
     reuse_stream(ctx);
     scale_stream(ctx, &corner_ts);
+    special_stream(ctx);
 
     // 4. malformed stream (outside the contract; nothing claimed, but the refusal is recorded and
     //    compared): array length ≠ element count, curve orders above the maximum
